@@ -230,7 +230,7 @@ def _checked(bt, env):
     return ((w, bits, signed), w != exact)
 
 
-def check_iszero(ctx, P, rule="E8.iszero", check_asserts=True):
+def check_iszero(ctx, P, rule="E8.iszero", check_asserts=True, need=("zero", "nonzero")):
     """The branch-free zero test of byte strings, decided exhaustively over the 256 values of
     its i8 accumulator by folding the extracted term (no code is run): result must be 1 iff
     the OR of the bytes is 0, the accumulator must OR every byte, and (dev profile) no
@@ -256,9 +256,11 @@ def check_iszero(ctx, P, rule="E8.iszero", check_asserts=True):
             ok_step = other.op == "cast" and str(other.a[2]) == "i8"
             # the byte comes from iterating over self without dropping adapters
             elem_ok = any(s.op == "call" and B.cname(s) == "Iterator::next" for s in subterms(other))
-    ctx.ob(rule + ".acc", "t = OR of every byte", ok_init and ok_step and elem_ok, "accumulator init=%s step=%s" % (show(init, 3), show(strip_sites(step), 5) if step is not None else None), where=where(fn))
+    if "nonzero" in need:
+        ctx.ob(rule + ".acc", "t = OR of every byte", ok_init and ok_step and elem_ok, "accumulator init=%s step=%s" % (show(init, 3), show(strip_sites(step), 5) if step is not None else None), where=where(fn))
     bad_ad = [a for a in adapter_calls(fn) if a[1] in ELEMENT_DROPPING]
-    ctx.ob(rule + ".all-bytes", "no element-dropping adapter", not bad_ad, "iterator over the byte string uses %s" % ([a[1] for a in adapter_calls(fn)]), where=where(fn))
+    if "nonzero" in need:
+        ctx.ob(rule + ".all-bytes", "no element-dropping adapter", not bad_ad, "iterator over the byte string uses %s" % ([a[1] for a in adapter_calls(fn)]), where=where(fn))
     # fold the result for all 256 accumulator values
     inner = ev.ret
     while inner.op == "call" and B.cname(inner) in ("From::from", "Into::into", "Choice::from") and len(inner.a[1]) == 1:
@@ -272,12 +274,14 @@ def check_iszero(ctx, P, rule="E8.iszero", check_asserts=True):
             unknown = str(e)
             break
         want = 1 if v == 0 else 0
-        if r[0] != want:
+        if r[0] != want and (("zero" in need and v == 0) or ("nonzero" in need and v != 0)):
             wrong.append((v, r[0]))
-    if unknown:
+    if not need:
+        pass
+    elif unknown:
         ctx.ob(rule + ".value", "result table", True, "zero-test result is not a foldable integer term (%s): weak form only" % unknown, where=where(fn), weak=True)
     else:
-        ctx.ob(rule + ".value", "result table", not wrong, "zero test evaluated for all 256 accumulator values: %s" % ("1 iff OR==0 (exhaustive)" if not wrong else "WRONG for %d values, e.g. OR=%d -> %d" % (len(wrong), wrong[0][0], wrong[0][1])), where=where(fn), sample={"term": show(strip_sites(inner), 8)})
+        ctx.ob(rule + ".value", "result table[%s]" % "+".join(need), not wrong, "zero test evaluated for all 256 accumulator values (%s): %s" % ({("zero",): "OR==0 must be reported zero", ("nonzero",): "OR!=0 must be reported non-zero"}.get(tuple(need), "1 iff OR==0"), "holds (exhaustive)" if not wrong else "WRONG for %d values, e.g. OR=%d -> %d" % (len(wrong), wrong[0][0], wrong[0][1])), where=where(fn), sample={"term": show(strip_sites(inner), 8)})
     if check_asserts:
         for b, (cond, ops) in sorted(ev.asserts.items()):
             tj = fn.blocks[b]["term"]
